@@ -308,8 +308,53 @@ def _norm(t, c):
     return t, c
 
 
+def propagate(cons, rounds=12):
+    """integer interval propagation. Returns (conflict, lo, hi)."""
+    lo, hi = {}, {}
+    items = [(dict(l.t), l.c) for l in cons if l.t]
+    for _ in range(rounds):
+        changed = False
+        for t, c in items:
+            for j, tj in t.items():
+                # tj*aj >= -c - sum_{i != j} ti*ai ; use the largest possible value of the other terms
+                s = -c
+                ok = True
+                for i, ti in t.items():
+                    if i == j:
+                        continue
+                    b = hi.get(i) if ti > 0 else lo.get(i)
+                    if b is None:
+                        ok = False
+                        break
+                    s -= ti * b
+                if not ok:
+                    continue
+                if tj > 0:
+                    nb = -((-s) // tj)          # ceil(s / tj)
+                    if lo.get(j) is None or nb > lo[j]:
+                        lo[j] = nb
+                        changed = True
+                else:
+                    nb = s // tj if False else (-s) // (-tj)   # aj <= floor((-s)/(-tj))
+                    if hi.get(j) is None or nb < hi[j]:
+                        hi[j] = nb
+                        changed = True
+                if lo.get(j) is not None and hi.get(j) is not None and lo[j] > hi[j]:
+                    return True, lo, hi
+        if not changed:
+            break
+    return False, lo, hi
+
+
 def fm_unsat(cons, limit=4000):
     """cons: list of Lin meaning lin >= 0. True if no integer solution is possible (sound: True only if really unsat)."""
+    for l in cons:
+        if not l.t and l.c < 0:
+            return True
+    conflict, lo, hi = propagate(cons)
+    if conflict:
+        return True
+    cons = list(cons) + [Lin({a: 1}, -v) for a, v in lo.items()] + [Lin({a: -1}, v) for a, v in hi.items()]
     cur = []
     seen = set()
     for l in cons:
@@ -723,6 +768,9 @@ class Ctx:
             st, dt = inner.ty, e.ty
             if st in UMAX and dt in UMAX and UMAX[st] <= UMAX[dt]:
                 return self.L(inner)
+            cv = _const_val(inner)
+            if cv is not None and dt in UMAX and 0 <= cv <= UMAX[dt]:
+                return const(cv)
             key = e.key()
             if key in self.atom_e:
                 return atom(key)
@@ -960,7 +1008,27 @@ class Engine:
                 for (what, rel, val) in ens:
                     if what == "len" and rel == "eq":
                         return const(val)
-        return None
+        # length of the collection a callee returns, expressed over the caller's arguments
+        tb = self.prog.bodies.get(base.extra)
+        if tb is None or tb.is_test or tb.path == ctx.b.path or len(tb.nodes) > 400:
+            return None
+        rets = tb.return_nodes()
+        if len(rets) != 1:
+            return None
+        cctx = Ctx(self.prog, tb, self)
+        rv = strip(cctx.f.read(0, rets[0]))
+        if rv.k == "mem":
+            rv = cctx.stable_len_init(rv.extra[0])
+            if rv is None:
+                return None
+            rv = strip(rv)
+        if not (rv.k == "call" and path_matches(rv.extra, "vec::from_elem")):
+            return None
+        mapping = {i: base.a[i - 1] for i in range(1, tb.argc + 1) if i - 1 < len(base.a)}
+        sub = self.subst(rv, mapping, ("inl", base.nid, tb.path))
+        if sub is None:
+            return None
+        return ctx.len_of(sub)
 
     def arg_facts(self, ctx, e):
         return []
@@ -1220,7 +1288,7 @@ class Engine:
                     out += self.edge_facts(ctx, s, i)
             # obligations that were passed on the way here
             for ob in self.obligations(ctx):
-                if ob.goals and ob.nid != p and p in self.node_dom(b, ob.nid):
+                if ob.goals and ob.runtime_checked and not isinstance(ob.goals, tuple) and ob.nid != p and p in self.node_dom(b, ob.nid):
                     out += ob.goals
         finally:
             self._facts_busy.discard(k)
@@ -1375,13 +1443,50 @@ class Engine:
                 return True, ""
             return False, "product bound unknown (%s, %s)" % (ua, ub)
         for g in ob.goals:
-            fs = facts + ctx.facts_for([g] + facts)
-            fs += ctx.facts_for(fs)
-            rel = self.relevant(fs, g)
-            neg = g.scale(-1) - const(1)
-            if not fm_unsat(rel + [neg]):
+            if not self.entails(ctx, facts, g, 0):
                 return False, "cannot show  %s >= 0" % g.show(ctx.names)
         return True, ""
+
+    def entails(self, ctx, facts, g, depth):
+        fs = facts + ctx.facts_for([g] + facts)
+        fs += ctx.facts_for(fs)
+        rel = self.relevant(fs, g)
+        neg = g.scale(-1) - const(1)
+        if fm_unsat(rel + [neg]):
+            return True
+        if depth >= 3:
+            return False
+        # case split on a merge that occurs in the goal (or in a fact tied to it): prove the goal for every incoming value
+        atoms = set(g.atoms())
+        for f_ in rel:
+            atoms |= f_.atoms()
+        for a in sorted(atoms, key=repr):
+            e = ctx.atom_e.get(a)
+            if e is None or e.k != "phi":
+                continue
+            ent = ctx.f.phis.get(e.key())
+            if not ent:
+                continue
+            node, ops, preds = ent
+            if len(ops) > 4 or any(any(x.key() == e.key() for x in o.walk()) for o in ops):
+                continue
+            ok = True
+            for o, (p, lab) in zip(ops, preds):
+                lo = ctx.L(o)
+                def sub(l):
+                    k = l.t.get(a, 0)
+                    if not k:
+                        return l
+                    t = dict(l.t)
+                    del t[a]
+                    return Lin(t, l.c) + lo.scale(k)
+                facts2 = [sub(f_) for f_ in facts] + self.facts_at_edge(ctx, p, lab)
+                if not self.entails(ctx, facts2, sub(g), depth + 1):
+                    ok = False
+                    break
+            if ok:
+                return True
+        return False
 
     def relevant(self, facts, goal):
         atoms = set(goal.atoms())
@@ -1412,3 +1517,8 @@ class Ob:
         self.where = where
         self.desc = ""
         self.goals = None
+
+    @property
+    def runtime_checked(self):
+        # the program itself panics when these fail, so code after them may rely on them
+        return self.kind not in ("AllocSize", "Contract")
